@@ -80,6 +80,10 @@ def analyse(src: Source) -> List[Report]:
     rep.exhaustive = True
     rep.expect_min("R8.1-I3-stale-candidate", 300)
     rep.expect_min("R8.5-fresh-state", 40)
+    # what the activator lists as trashable must die in the scheduler on every path of the mediators' trash loops
+    from ..mediator_rules import check_trash_loops
+    check_trash_loops(prog, rep, "R8.6-trash-loop-trashes-every-handler")
+    rep.expect_min("R8.6-trash-loop-trashes-every-handler", 2)
     return [rep]
 
 
